@@ -44,6 +44,12 @@ def run(w: World, rep: Report):
            'an active registry entry is used by every part of an execution: the contracts and plugins of a run (registry '
            'merged with the embedder\'s) reach every tape, including each further script of run_auth_scripts (C09.R1 '
            're-evaluated)', floor=30)
+    depend(rep, w, 'rules_c20', ('C20.R6',), 'C19.TD20',
+           'an entry is used if and only if it is active: name and alias look-ups consult the live registries, never a value '
+           'computed from them once at import (C20.R6 re-evaluated)', floor=1)
+    depend(rep, w, 'rules_c11', ('C11.R7',), 'C19.TD11',
+           'the compiler\'s symbol look-ahead consults the live op / NOP / alias / special-symbol tables (C11.R7 re-evaluated)',
+           floor=2)
     rep.explanation = (
         'Decides the history channels of C19 structurally: iteration/mutation conflicts on every loop and '
         'comprehension (R1), who may write each module-level registry and unreachability of the writers from '
@@ -300,6 +306,29 @@ def _r2(w: World, rep: Report, eff: Effects):
                 why = '' if ok else 'entry removed without an `x in registry` guard: removing an absent entry raises'
             elif wr.op in ('store',):
                 ok = True
+                # the key whose presence is tested is the key stored under: a test on the caller's spelling with the
+                # entry filed under a normalised spelling (or the reverse) lets duplicates through / rebinds entries
+                regname = root[2:]
+                if wr.key is not None and key.split('.')[-1].startswith(API_PREFIXES):
+                    ktxt = ast.unparse(wr.key)
+                    tests = [c for c in ast.walk(fi.node) if isinstance(c, ast.Compare) and len(c.ops) == 1 and
+                             isinstance(c.ops[0], (ast.In, ast.NotIn)) and
+                             ast.unparse(c.comparators[0]) == regname]
+                    same = [c for c in tests if ast.unparse(c.left) == ktxt]
+                    if tests and not same:
+                        ok = False
+                        why = (f'presence in `{regname}` is tested for `{ast.unparse(tests[0].left)}` but the entry is stored under '
+                               f'`{ktxt}`: the test does not speak about the key that is written, so an existing entry can be '
+                               f'silently replaced')
+                    elif same and isinstance(wr.key, ast.Name) and node is not None:
+                        # same name: it must not be rebound between the test and the store
+                        tn = [n for n in cfg.nodes if n.ast is not None and any(x is same[0] for x in ast.walk(n.ast))]
+                        d1 = {id(d[0]) for d in cfg.defs_reaching(wr.key.id, tn[0])} if tn else None
+                        d2 = {id(d[0]) for d in cfg.defs_reaching(wr.key.id, node)}
+                        if d1 is not None and d1 != d2:
+                            ok = False
+                            why = (f'`{ktxt}` is rebound between the presence test and the store into `{regname}`: the test does '
+                                   f'not speak about the key that is written')
             elif wr.op == 'setdefault':
                 ok = True           # insert-if-absent by definition
             elif wr.op == 'pop':
